@@ -450,4 +450,28 @@ pub mod verif_hooks {
         let p = find_partitioned_rice_parameter(signal, warmup_length, max_p);
         (p.order, p.ps, p.code_bits)
     }
+
+    /// `PrcParameterFinder::find` on a finder whose scratch vectors hold the given stale contents.
+    /// Returns (partition order, parameters, code bits, scratch `ps` afterwards, scratch `min_ps` afterwards).
+    #[allow(clippy::type_complexity)]
+    pub fn find_with_stale(
+        stale_errors: &[u32],
+        stale_tables: usize,
+        stale_ps: &[usize],
+        stale_min_ps: &[usize],
+        signal: &[i32],
+        warmup_length: usize,
+        max_p: usize,
+    ) -> (usize, Vec<u8>, usize, Vec<usize>, Vec<usize>) {
+        let mut finder = PrcParameterFinder {
+            errors: stale_errors.to_vec(),
+            tables: (0..stale_tables)
+                .map(|i| PrcBitTable { p_to_bits: simd::u32x16::splat(0x1234_5678 ^ i as u32) })
+                .collect(),
+            ps: stale_ps.to_vec(),
+            min_ps: stale_min_ps.to_vec(),
+        };
+        let p = finder.find(signal, warmup_length, max_p);
+        (p.order, p.ps, p.code_bits, finder.ps, finder.min_ps)
+    }
 }
